@@ -1114,6 +1114,11 @@ fn synthetic_stream(rep: &mut Report, rng: &mut Rng, reqs: &mut Vec<String>, pen
                 continue;
             }
             // distinct files per function keep the per-line expectation simple
+            // every eighth case: the ARCS record of block 0 is not the first one (`EntryFirst` of
+            // Props/C15Entry.lean violated: arc 0 is not the entry arc)
+            if i % 8 == 5 {
+                f.move_entry_arcs_back();
+            }
             f.file = format!("f{}.c", fns.len()).into_bytes();
             for (_, items) in f.lines.iter_mut() {
                 for it in items.iter_mut() {
@@ -1145,7 +1150,7 @@ fn synthetic_stream(rep: &mut Report, rng: &mut Rng, reqs: &mut Vec<String>, pen
                 for (t, v) in total[fi].iter_mut().zip(flow.iter()) {
                     *t += *v;
                 }
-                walks_total[fi] += flow[0];
+                walks_total[fi] += flow[f.arcs.iter().position(|a| a.0 == 0).unwrap_or(0)];
                 parts.push((f, flow));
             }
             gcdas.push(gcda_for(version, checksum, &parts));
@@ -1178,10 +1183,26 @@ fn synthetic_stream(rep: &mut Report, rng: &mut Rng, reqs: &mut Vec<String>, pen
                 let file = String::from_utf8_lossy(&f.file).to_string();
                 let name = String::from_utf8_lossy(&f.name).to_string();
                 let cov = rs.iter().find(|(k, _)| *k == file).map(|(_, c)| c);
-                let executed = walks_total[fi] > 0;
-                if cov.and_then(|c| c.functions.get(&name)).map(|x| x.executed) != Some(executed) {
-                    rep.fail("oracle", None, format!("function {} entered {} times: wrong executed flag", name, walks_total[fi]), case.clone());
-                }
+                let entered = walks_total[fi] > 0;
+                let got = cov.and_then(|c| c.functions.get(&name)).map(|x| x.executed);
+                let executed = if f.entry_first() {
+                    if got != Some(entered) {
+                        rep.fail("oracle", None, format!("function {} entered {} times: wrong executed flag", name, walks_total[fi]), case.clone());
+                    }
+                    entered
+                } else {
+                    // outside the shape condition the code looks at `edges.first()`: recorded, and
+                    // checked to be exactly that
+                    rep.count("synthetic.entry_not_first");
+                    let first = total[fi][0] > 0;
+                    if got != Some(first) {
+                        rep.fail("oracle", None, format!("function {} (arc 0 is not the entry arc): executed flag {:?} is not 'arc 0 taken' = {}", name, got, first), case.clone());
+                    }
+                    if got != Some(entered) {
+                        rep.count("synthetic.entry_not_first.executed_differs_from_entered");
+                    }
+                    first
+                };
                 if let Some(cov) = cov {
                     for (l, want) in single_block_lines(f, &total[fi], version) {
                         let want = if executed { want } else { 0 };
